@@ -3,6 +3,7 @@ C12 — All evaluation views partition the same total.
 Property theorems only (helper lemmas: KlogV/Lemmas/Report.lean).
 -/
 import KlogV.Lemmas.Report
+import KlogV.Props.Tables
 namespace KlogV.C12
 
 /-- Sorting returns the same records, ordered by date. -/
